@@ -3,7 +3,7 @@ import re
 
 import z3
 
-from . import common, e3
+from . import common, e3, probes
 from .mir import engine as mir_engine, exec as mx, cmpcfg
 from .mir.cmpcfg import FieldAtoms
 
@@ -55,7 +55,7 @@ def c18_arity(out):
         obl.check_unsat(ex, "deref-arity", list(r.pc) + [(n != 1) if not is_err(r) else (n == 1)], info="arity")
     e3.coverage_check(ex, obl, "build_deref_for_struct", res, pre=pre)
     for label, m, info in obl.failed:
-        out.violation("deref-arity", "-", "build_deref_for_struct accepts / rejects the wrong number of fields (model: len(fields) = %s)" % m.eval(n, model_completion=True))
+        probes.structural(out, "deref-arity", "build_deref_for_struct accepts / rejects the wrong number of fields (model: len(fields) = %s)" % m.eval(n, model_completion=True), 'C18.arity')
     return obl
 
 
@@ -284,7 +284,7 @@ def c01_to_index(out, obl):
         if ok:
             obl.discharged += 1
         else:
-            out.violation("to_index-arms", "-", "build_to_index_fn does not map the i-th variant to the plain index i: %s" % ([(p, [e[0].split("::")[-1] + ":" + e[1][0][:20] for e in a]) for p, a in arms][:3],))
+            probes.structural(out, "to_index-arms", "build_to_index_fn does not map the i-th variant to the plain index i: %s" % ([(p, [e[0].split("::")[-1] + ":" + e[1][0][:20] for e in a]) for p, a in arms][:3],), 'C01.to_index')
 
 
 def c09_kernels(out):
